@@ -250,3 +250,63 @@ func (w *world) progressOracle() string {
 	}
 	return ""
 }
+
+// nodeOracle states "every field receives exactly the result produced for it" for apifu's built-in
+// `node(id:)` / `nodes(ids:)` root fields: whatever way the lookups are fetched (one by one today; in
+// one batched ResolveNodesByGlobalIds call if they are ever coalesced), the field asked for id X holds
+// the node whose id is X (null when it does not exist), and `nodes` holds exactly the existing ones —
+// the application returns nodes in an order of its own.
+func nodeOracle(tree []Sel, body string) string {
+	var r struct {
+		Data map[string]json.RawMessage `json:"data"`
+	}
+	if json.Unmarshal([]byte(body), &r) != nil || r.Data == nil {
+		return ""
+	}
+	exists := func(id string) bool { return len(id) == 2 && id[0] == 'N' }
+	for _, s := range tree {
+		raw, ok := r.Data[fmt.Sprintf("f%d", s.ID)]
+		if !ok {
+			continue
+		}
+		switch s.Name {
+		case "node":
+			var got *struct {
+				ID string `json:"id"`
+			}
+			if json.Unmarshal(raw, &got) != nil {
+				return fmt.Sprintf("node(id: %q) is not an object: %s", s.Args, raw)
+			}
+			switch {
+			case got == nil && exists(s.Args):
+				return fmt.Sprintf("node(id: %q) is null although the node exists", s.Args)
+			case got != nil && !exists(s.Args):
+				return fmt.Sprintf("node(id: %q) holds node %q although no such node exists", s.Args, got.ID)
+			case got != nil && got.ID != s.Args:
+				return fmt.Sprintf("node(id: %q) holds node %q: the field received the result produced for another field context", s.Args, got.ID)
+			}
+		case "nodes":
+			var got []struct {
+				ID string `json:"id"`
+			}
+			if json.Unmarshal(raw, &got) != nil {
+				return fmt.Sprintf("nodes(ids: %s) is not a list: %s", s.Args, raw)
+			}
+			want := map[string]int{}
+			for _, id := range strings.Split(s.Args, ",") {
+				if exists(id) {
+					want[id]++
+				}
+			}
+			for _, g := range got {
+				want[g.ID]--
+			}
+			for id, n := range want {
+				if n != 0 {
+					return fmt.Sprintf("nodes(ids: %s): node %q is %d time(s) off", s.Args, id, n)
+				}
+			}
+		}
+	}
+	return ""
+}
